@@ -4,7 +4,7 @@ from checks.models import STATEFUL_MODELS, TOL_BY_MODEL, EXTRA_ARGS
 
 CHECK = Check(
     "C06",
-    props_modules=["OW.Props.C06", "OW.Props.C06Laws"],
+    props_modules=["OW.Props.C06", "OW.Props.C06Laws", "OW.Props.C06N", "OW.Props.C06Tol"],
     families=[Family("KSPLIT", rtol=1e-9, atol_scale=1e-12, tol_by_model=TOL_BY_MODEL, args=["models=" + ",".join(STATEFUL_MODELS), "n=80"] + EXTRA_ARGS)],
     pre_steps=[gentie_step_all],
     level="proof",
@@ -13,14 +13,30 @@ CHECK = Check(
         "the custom extract/pack functions of GR4J and Lag), tied to the code on every run by the KSPLIT correspondence: the real "
         "wrapper+kernel run once on the whole period and consecutively on its segments with the returned states carried forward, "
         "both compared with the model",
-        "oracle on the implementation: one-call vs split-call outputs and final states bit-identical (StorageRouting: within 1e-6 "
-        "relative, its root finder's starting point is not part of the state and the property allows the solver tolerance)",
+        "oracle on the implementation: one-call vs split-call outputs and final states bit-identical. StorageRouting (its root "
+        "finder's starting point is not part of the state): |difference| <= 1e-6 x max(1, largest output/state magnitude) OR "
+        "<= 5e-3 absolute (harness/cmd/owharness/fam_ksplit.go). The property's clause 'within the solver's own mass-balance "
+        "tolerance' is ORACLE-ONLY for whole runs: no theorem bounds the difference between the split run and the one-call run "
+        "beyond the first timestep after a cut",
     ],
-    assumptions=["all input series of a call have the same length (true of the real input arrays)"],
+    assumptions=[
+        "all input series of a call have the same length (true of the real input arrays)",
+        "every call of the split run succeeds (hypothesis of HotStart / HotStartN). InstreamDissolvedNutrientDecay reads "
+        "prevVolume := reachVolume.Get([0]) before its loop and before the doDecay test, so a call over ZERO timesteps panics "
+        "(index out of range; model: .error, theorem instreamDissolvedNutrient_empty_part_errors): for that model a split with an "
+        "empty part is outside the statement (all other stateful models accept an empty part)",
+        "N-way splits (HotStartN, OW/Props/C06N.lean): a non-empty list of blocks, the same number of series in every block, all "
+        "series of a block equally long (BlocksOk); for the HotStartWhen models the side condition is a hypothesis at EVERY cut "
+        "(CutsOk) - needed once when it only constrains the parameter column (DecayDisabled, SacramentoNoSpread, "
+        "FineSedimentMaxStorageNonneg). StorageRouting has no N-way instance",
+        "storageRouting_split_tol_step_partial: bias < 0.999, duration > 0, SIndex non-decreasing in the index flow (hypothesis, "
+        "not derived from the parameter ranges), and a call that exits through the root finder ends within massBalanceLimit",
+    ],
     partial=[
         "hotstart_Sacramento_partial: HotStart is false (hotstart_Sacramento_counterexample, KF-C06-Sacramento-uh-buffer: the unit-hydrograph buffer qq is a local re-created at each call); proved at R only for uh2..uh5 = 0, uh1 != 0, 1+side != 0",
         "hotstart_InstreamDissolvedNutrientDecay_partial: HotStart is false with decay enabled (hotstart_InstreamDissolvedNutrientDecay_counterexample, KF-C06-InstreamDissolvedNutrientDecay-prevVolume); proved for doDecay < 0.5 (any arithmetic)",
-        "hotstart_StorageRouting_partial: HotStart is false bit-exactly (hotstart_StorageRouting_counterexample: the root-finder seed qi is a local; the difference is within the 1e-3 mass-balance tolerance the property allows; an empty second part also zeroes the two dead state columns); proved exactly when the carried qi equals a fresh call's seed 0.0 and the second part has >= 1 step; exact split law storageRouting_split",
+        "hotstart_StorageRouting_partial: HotStart is false bit-exactly (hotstart_StorageRouting_counterexample: the root-finder seed qi is a local; in that example the two storages differ by 0.00025 m3; an empty second part also zeroes the two dead state columns); proved exactly when the carried qi equals a fresh call's seed 0.0 and the second part has >= 1 step; exact split law storageRouting_split",
+        "storageRouting_split_tol_step_partial (OW/Props/C06Tol.lean): the tolerance clause is proved for the FIRST timestep after a cut only (same storage and inputs, different seeds, both solves within massBalanceLimit => storages differ by < 2*massBalanceLimit = 2e-3 m3, outflows by < 2*massBalanceLimit/duration). Missing for the full statement storageRouting_split_tol: propagation through the later timesteps (non-expansiveness of a routing step in the carried storage, error growing with the number of steps) and monotonicity of SIndex from the parameter ranges; for whole runs the clause is checked by the KSPLIT oracle only",
         "hotstart_InstreamFineSediment_partial: HotStart is false for a negative carried channel store (re-read as a fraction of the maximum storage at every call; hotstart_InstreamFineSediment_counterexample needs maximum storage < 0, i.e. unphysical parameters); proved for every split with a non-negative carried store, and unconditionally at R for maximum storage >= 0 (hotstart_InstreamFineSediment_real)",
         "GR4J: holds for EVERY arithmetic with the law class IntRoundTripLaw (int(float(n)) = n; hotstart_GR4J_lawful, instance at R), and per "
         "call under the BOUNDED law hotstart_GR4J_bounded (round trip only for n <= length of the state row: the two store sizes n1, n2; "
@@ -39,10 +55,13 @@ META = dict(
          "and series; for the four models where it is false (Sacramento, InstreamDissolvedNutrientDecay, StorageRouting bit-exactly, "
          "InstreamFineSediment with a negative carried store) a proved counter-example and a `_partial` theorem under the hypothesis that "
          "removes the leak. The models are tied to the real wrappers+kernels by split-run correspondence; the oracle compares one-call and "
-         "split-call results of the real code.",
+         "split-call results of the real code. Any number of cuts: `HotStartN` (fold over a list of blocks) derived once from `HotStart` "
+         "by induction, `HotStartWhenN` with the side condition at every cut (OW/Props/C06N.lean). StorageRouting's tolerance clause: "
+         "first timestep after a cut proved (`storageRouting_split_tol_step_partial`), whole runs oracle-only.",
     design_ref="DESIGN.md §6 C06",
     note="Trusted: Lean kernel + 3 standard axioms; kernel models hand-written (correspondence-checked). Known findings: Sacramento "
-         "unit-hydrograph buffer and InstreamDissolvedNutrientDecay prevVolume are not part of the state vector.",
+         "unit-hydrograph buffer and InstreamDissolvedNutrientDecay prevVolume are not part of the state vector. "
+         "InstreamDissolvedNutrientDecay panics on a call over zero timesteps (an empty part of a split is outside the statement).",
     technique="Lean 4 proof (scan over a concatenation) + split-run differential correspondence",
 )
 READY = True
